@@ -2,6 +2,7 @@ import QP.Model.PT
 import QP.Proofs.PTTop
 import QP.Proofs.PTMulti
 import QP.Proofs.PTPoint
+import QP.Proofs.PTAtomsP
 /-! Stage 2 of compile correctness: table atoms and channel-parallel atomic composition in addition to stage 1. -/
 namespace QP.PT
 
@@ -22,10 +23,35 @@ theorem AtomTree.buildOK {pt : PT} (h : AtomTree pt) : BuildOK pt := by
   | point => exact buildOK_point _ _ _ _ _
   | atomicMulti _ ih => exact buildOK_atomicMulti _ _ _ _ _ ih
 
+theorem AtomTree.denoteND {pt : PT} (h : AtomTree pt) : DenoteND pt := by
+  cases h with
+  | const => exact denoteND_const _ _ _ _
+  | func => exact denoteND_func _ _ _ _ _ _
+  | table => exact denoteND_table _ _ _ _
+  | point => exact denoteND_point _ _ _ _ _
+  | atomicMulti _ => exact denoteND_atomicMulti _ _ _ _ _
+
+/-- the atoms of the sample theorems: the proved atoms and `ArithmeticAtomicPT`s of them (any nesting of
+`ArithmeticAtomicPT` in `ArithmeticAtomicPT`) -/
+inductive AtomTreeP : PT → Prop
+  | base {pt} : AtomTree pt → AtomTreeP pt
+  | arithAtomic {id lhs minus rhs meas} : AtomTreeP lhs → AtomTreeP rhs →
+      AtomTreeP (.arithAtomic id lhs minus rhs meas)
+
+theorem AtomTreeP.denoteND {pt : PT} (h : AtomTreeP pt) : DenoteND pt := by
+  induction h with
+  | base ha => exact ha.denoteND
+  | arithAtomic _ _ ihl ihr => exact denoteND_arithAtomic _ _ _ _ _ ihl ihr
+
+theorem AtomTreeP.buildOKP {pt : PT} (h : AtomTreeP pt) : BuildOKP pt := by
+  induction h with
+  | base ha => exact ha.buildOK.toP ha.denoteND
+  | arithAtomic _ _ ihl ihr => exact buildOKP_arithAtomic _ _ _ _ _ ihl ihr
+
 /-- the constructor subset of stage 2: `AtomTree` atoms composed by sequencing, repetition, indexed iteration and
 parameter / channel / measurement mapping -/
 inductive Stage2 : PT → Prop
-  | atom {pt} : AtomTree pt → Stage2 pt
+  | atom {pt} : AtomTreeP pt → Stage2 pt
   | seq {id subs meas cons} : (∀ p ∈ subs, Stage2 p) → Stage2 (.seq id subs meas cons)
   | rep {id body count meas cons} : Stage2 body → Stage2 (.rep id body count meas cons)
   | forLoop {id body idx start stop step meas cons} : Stage2 body →
@@ -35,13 +61,16 @@ inductive Stage2 : PT → Prop
 theorem Stage2.basic {pt : PT} (h : Stage2 pt) : Basic pt := by
   induction h with
   | atom ha =>
-    have hb := atomOK_of_buildOK ha.buildOK
+    have hb := atomOK_of_buildOKP ha.buildOKP
     cases ha with
-    | const => exact Basic.const hb
-    | func => exact Basic.func hb
-    | table => exact Basic.table hb
-    | point => exact Basic.point hb
-    | atomicMulti _ => exact Basic.atomicMulti hb
+    | base ha' =>
+      cases ha' with
+      | const => exact Basic.const hb
+      | func => exact Basic.func hb
+      | table => exact Basic.table hb
+      | point => exact Basic.point hb
+      | atomicMulti _ => exact Basic.atomicMulti hb
+    | arithAtomic _ _ => exact Basic.arithAtomic hb
   | seq _ ih => exact Basic.seq ih
   | rep _ ih => exact Basic.rep ih
   | forLoop _ ih => exact Basic.forLoop ih
@@ -49,8 +78,8 @@ theorem Stage2.basic {pt : PT} (h : Stage2 pt) : Basic pt := by
 
 theorem Stage1.stage2 {pt : PT} (h : Stage1 pt) : Stage2 pt := by
   induction h with
-  | const => exact Stage2.atom AtomTree.const
-  | func => exact Stage2.atom AtomTree.func
+  | const => exact Stage2.atom (AtomTreeP.base AtomTree.const)
+  | func => exact Stage2.atom (AtomTreeP.base AtomTree.func)
   | seq _ ih => exact Stage2.seq ih
   | rep _ ih => exact Stage2.rep ih
   | forLoop _ ih => exact Stage2.forLoop ih
